@@ -392,6 +392,9 @@ fn buffer_class(fmt: Fmt, a: &Buffer, opts: &icy_engine::SaveOptions) -> (&'stat
 
 fn resave(fmt: Fmt, a: &Buffer, opts: &icy_engine::SaveOptions) -> Result<(), (String, String)> {
     let f = fmt.ext();
+    if a.get_height() < 0 || a.get_width() < 0 {
+        return Err((format!("{f}|resave|negative_size"), format!("the loader accepted the file and produced a {} x {} buffer", a.get_width(), a.get_height())));
+    }
     let s = match a.to_bytes(f, opts) {
         Ok(s) => {
             dump("resaved", &s);
@@ -403,9 +406,6 @@ fn resave(fmt: Fmt, a: &Buffer, opts: &icy_engine::SaveOptions) -> Result<(), (S
         Ok(b) => b,
         Err(e) => return Err((format!("{f}|resave|reload_error|{}", strip_digits(&e)), format!("the re-saved file is rejected: {e}"))),
     };
-    if a.get_height() < 0 || a.get_width() < 0 {
-        return Err((format!("{f}|resave|negative_size"), format!("the loader accepted the file and produced a {} x {} buffer", a.get_width(), a.get_height())));
-    }
     if let Some(d) = same_picture(a, &b, fmt.embeds_font()) {
         let (class, fold) = buffer_class(fmt, a, opts);
         let msg = format!("first load vs load(save(first load)): {}", d.msg);
